@@ -54,6 +54,9 @@ func stressPool(r *rng, thorough bool) stressResult {
 		if it%50 == 0 {
 			tasks = 200 + r.intn(300)
 		}
+		if it == 7 || (thorough && it%5000 == 7) {
+			tasks = 9000 + r.intn(2000) // one pool object that has completed many thousands of tasks over its lifetime
+		}
 		submitters := 1 + r.intn(4)
 		rounds := 1 + r.intn(3)
 		eff := w
@@ -141,7 +144,49 @@ func stressPool(r *rng, thorough bool) stressResult {
 			return stressResult{Kind: "pool", Runs: it + 1, Witness: witness}
 		}
 	}
+	if w := stressPoolSlowTasks(); w != nil {
+		return stressResult{Kind: "pool", Runs: runs, Witness: w}
+	}
 	return stressResult{OK: true, Kind: "pool", Runs: runs}
+}
+
+// stressPoolSlowTasks: REAL TIME. Every worker of a pool is busy for more than a second while further tasks sit in the
+// queue and nobody submits anything afterwards: the queued tasks still run and Wait returns. (A pool whose workers retire
+// after an idle period measured from the wrong instant loses them.) Eight pools at once, so the check costs ~1.3 s.
+func stressPoolSlowTasks() map[string]any {
+	type res struct {
+		ran, want int
+		hung      bool
+		workers   int
+	}
+	out := make(chan res, 8)
+	for k := 0; k < 8; k++ {
+		go func(k int) {
+			workers := 1 + k%2
+			pool := flyt.NewWorkerPool(workers)
+			var ran int32
+			want := workers + 3
+			for i := 0; i < workers; i++ {
+				pool.Submit(func() { time.Sleep(1150 * time.Millisecond); atomic.AddInt32(&ran, 1) })
+			}
+			for i := 0; i < 3; i++ {
+				pool.Submit(func() { atomic.AddInt32(&ran, 1) })
+			}
+			ok := withTimeout(6*time.Second, pool.Wait)
+			if ok {
+				pool.Close()
+			}
+			out <- res{int(atomic.LoadInt32(&ran)), want, !ok, workers}
+		}(k)
+	}
+	for k := 0; k < 8; k++ {
+		r := <-out
+		if r.hung || r.ran != r.want {
+			return map[string]any{"what": "after tasks that ran for more than a second, queued tasks were not run / Wait did not return",
+				"workers": r.workers, "ran": r.ran, "submitted": r.want, "waitHung": r.hung}
+		}
+	}
+	return nil
 }
 
 // stressBatch: concurrent batches with random task durations; every observable clause of C06-C09 is checked
